@@ -1,4 +1,5 @@
 import PyamgV.Model.C16Coarse
+import PyamgV.Model.ExtC09Block
 
 /-! # C16 model, extension E29: the relaxation-type coarse solvers other than gauss_seidel / sor
 
@@ -17,13 +18,17 @@ obtain from routines outside the model is a *recorded input* `Rec`:
 * `dinv`  `get_block_diag(A, blocksize, inv_flag=True).ravel()`: the inverses of the diagonal blocks
           (LAPACK-style pseudo-inverse routine), exactly as handed to the block kernels;
 * `cheb`  `chebyshev_polynomial_coefficients(rho·lower, rho·upper, degree)` (cosines);
-* `bs`    the block size of the stored matrix (`A.blocksize[0]`, 1 for CSR) and its BSR arrays.
+* `bs`    the block size of the stored matrix (`A.blocksize[0]`, 1 for CSR) and its BSR arrays;
+* `sj sp tx tp`  (extension E51, `schwarz`) the tuple `relaxation.schwarz_parameters(lvl.Acsr, ...)` returns to
+          `setup_schwarz`: `subdomain`, `subdomain_ptr`, `inv_subblock` (LAPACK `gelss` pseudo-inverses of the
+          subdomain blocks, row major), `inv_subblock_ptr`.
 
 The kernels `jacobi`, `jacobi_ne`, `gauss_seidel_ne`, `gauss_seidel_nr` are the C09 kernel models of
 `Model/KRelax.lean`; `block_jacobi`, `block_gauss_seidel` (relaxation.h) and `relaxation.polynomial`
 are modelled here, loop by loop. -/
 namespace PyamgV.C16R
-open PyamgV.K PyamgV.C02 PyamgV.C16
+open PyamgV.K hiding vadd vsub spmv smul vmap2
+open PyamgV.C02 PyamgV.C16
 
 variable {α : Type} [Add α] [Sub α] [Mul α] [Div α] [OfNat α 0] [OfNat α 1] [DecidableEq α]
 
@@ -168,6 +173,10 @@ structure Rec (α : Type) where
   bsr : Csr α := ⟨0, #[], #[], #[]⟩
   dinv : Array α := #[]
   cheb : Array α := #[]
+  sj : Array Nat := #[]
+  sp : Array Nat := #[]
+  tx : Array α := #[]
+  tp : Array Nat := #[]
 
 /-- `-chebyshev_polynomial_coefficients(a, b, degree)[:-1]` -/
 def chebCoeffs (cheb : Array α) : List α := (cheb.toList.dropLast).map (fun c => (0 : α) - c)
@@ -177,8 +186,19 @@ def chebCoeffs (cheb : Array α) : List α := (cheb.toList.dropLast).map (fun c 
 def effOmega (o : Opts α) (rho : Option α) (f : α → α) : Option α :=
   if o.withrho.getD true then rho.map (fun ρ => o.omega.getD (1 : α) / f ρ) else some (o.omega.getD (1 : α))
 
+/-- the recorded Schwarz parameters are what the kernel `overlapping_schwarz_csr` may be run on: at least the
+leading pointer, one block pointer per subdomain pointer, every subdomain `d` is a slice of `sj` with indices `< n`
+and its `m_d × m_d` block lies inside `tx` (anything else reads out of bounds in the C++ loop) -/
+def schwarzRecOK (n : Nat) (ri : Rec α) : Bool :=
+  decide (ri.sp.size ≠ 0) && decide (ri.tp.size = ri.sp.size) &&
+  (List.range (ri.sp.size - 1)).all (fun d =>
+    decide (rdN ri.sp d ≤ rdN ri.sp (d + 1)) && decide (rdN ri.sp (d + 1) ≤ ri.sj.size) &&
+    decide (rdN ri.tp d + (rdN ri.sp (d + 1) - rdN ri.sp d) * (rdN ri.sp (d + 1) - rdN ri.sp d) ≤ ri.tx.size)) &&
+  ri.sj.all (fun j => decide (j < n))
+
 /-- `x = np.zeros_like(b); relax(A, x, b); return x` with `relax = setup_<name>(lvl, **kwargs)`,
-`kwargs['iterations']` defaulting to 10 — every relaxation name except `schwarz`.
+`kwargs['iterations']` defaulting to 10 — every relaxation name (`schwarz`: with the default subdomains / blocks
+computed by the setup, i.e. the options `iterations`, `sweep`).
 Keyword arguments a setup function does not accept raise `TypeError`. -/
 def relaxSolveR (conj : α → α) (name : String) (o : Opts α) (ri : Rec α) (A : Csr α) (b : Array α) :
     Except String (Array α) :=
@@ -222,6 +242,11 @@ def relaxSolveR (conj : α → α) (name : String) (o : Opts α) (ri : Rec α) (
   else if name = "gauss_seidel_nr" then
     if o.withrho.isSome then .error "TypeError"
     else .ok (pyGaussSeidelNR conj (o.omega.getD (1 : α)) (cscOf A) b iters (o.sweep.getD .forward) x0)
+  else if name = "schwarz" then
+    -- relaxation.schwarz(lvl.Acsr, x, b, iterations, subdomain, subdomain_ptr, inv_subblock, inv_subblock_ptr, sweep)
+    if o.omega.isSome || o.withrho.isSome then .error "TypeError"
+    else if !schwarzRecOK A.n ri then .error "bad-record"
+    else .ok (K.pySchwarz A b ri.tx ri.tp ri.sj ri.sp iters (o.sweep.getD .forward) x0)
   else .error "unmodelled"
 
 /-- `GenericSolver.__call__(A, b)` of a relaxation-based coarse solver: the `A.nnz == 0` shortcut, the
